@@ -3,7 +3,7 @@
 from __future__ import annotations
 
 import ast
-from typing import Dict, List, Optional, Tuple
+from typing import Any, Dict, List, Optional, Tuple
 
 from .. import hexa
 from ..model import AnalysisError, Repo, attr_chain, walk_shallow
@@ -246,4 +246,62 @@ def frame_signs(repo: Repo) -> RuleRun:
 
 frame_signs.rule_id = "C18.FRAME-SIGNS"
 
-RULES = [scan, corner_table, frame_signs]
+def triangle_partition(repo: Repo) -> RuleRun:
+    """Abstract run of the side-assignment loop of ViewpointReorienter.reorient: the 12 hull triangles are
+    handed out to the 6 sides two at a time, each triangle exactly once, candidates shrinking as sides are served."""
+    r = RuleRun(PROP, "C18.TRIANGLE-PARTITION", floor=3, what="the 12 hull triangles are partitioned into 6 sides of 2; no triangle is offered again after it was assigned")
+    fn = repo.func("modify.reorient.viewpoint.ViewpointReorienter.reorient")
+    tris = [Sym(f"t{i:02d}") for i in range(12)]
+    offered: List[List[str]] = []
+    quads: List[Any] = []
+
+    def hook(ev, call: ast.Call, name):
+        ch = attr_chain(call.func) or ""
+        if ch == "self._make_triangles":
+            return list(tris)
+        if ch == "self._get_normals":
+            return {k: Sym(f"n_{k}") for k in ("front", "back", "top", "bottom", "left", "right")}
+        if ch == "self._get_aligned":
+            cands = ev.eval(call.args[0])
+            names = sorted(repr(c) for c in cands)
+            offered.append(names)
+            pick = [c for c in cands if repr(c) in names[-2:]]
+            return sorted(pick, key=repr)
+        if ch == "Quadrangle":
+            t = ev.eval(call.args[0])
+            q = Obj(f"quad{len(quads)}")
+            q.set("triangles", list(t))
+            quads.append(q)
+            return q
+        if isinstance(call.func, ast.Attribute) and call.func.attr == "get_common_point":
+            return Sym("corner")
+        return NO_MATCH
+
+    this = Obj("reorienter", cls=repo.cls("modify.reorient.viewpoint.ViewpointReorienter"))
+    op = Obj("operation")
+    op.set("point_array", Sym("points"))
+    op.set("center", Sym("center"))
+    for nm in ("bottom", "top"):
+        f_ = Obj(nm)
+        f_.set("points", [Obj(f"{nm}{i}", position=Sym("old")) for i in range(4)])
+        op.set(f"{nm}_face", f_)
+    try:
+        Evaluator(repo=repo, module=fn.module, call_hook=hook).call_funcinfo(fn, [this, op])
+    except (NotEvaluable, Raised) as err:
+        raise AnalysisError(f"ViewpointReorienter.reorient not evaluable on symbolic triangles: {err}") from err
+    used = [repr(t) for q in quads for t in q.get("triangles")]
+    r.check(len(quads) == 6 and all(len(q.get("triangles")) == 2 for q in quads), fn, "6 sides of 2 triangles", f"reorient builds {len(quads)} sides with {[len(q.get('triangles')) for q in quads]} triangles", fn.node, key="six-sides")
+    r.check(sorted(used) == sorted(map(repr, tris)), fn, "every triangle assigned exactly once", f"the hull triangles are assigned as {used}: some triangle is used for two sides / never used", fn.node, key="partition")
+    shrinking = all(len(offered[i]) == 12 - 2 * i for i in range(len(offered))) and all(not (set(offered[i + 1]) & set(sorted(offered[i])[-2:])) for i in range(len(offered) - 1))
+    reoffered = []
+    taken: List[str] = []
+    for names in offered:
+        reoffered += [t for t in names if t in taken]
+        taken += sorted(names)[-2:]
+    r.check(shrinking and not reoffered, fn, f"candidates shrink {[len(o) for o in offered]}", f"triangles already assigned to a side are offered again to later sides ({sorted(set(reoffered))}; candidate counts {[len(o) for o in offered]}): on a strongly warped block a later side steals a triangle of an earlier one", fn.node, key="shrinking")
+    return r
+
+
+triangle_partition.rule_id = "C18.TRIANGLE-PARTITION"
+
+RULES = [scan, corner_table, frame_signs, triangle_partition]
